@@ -78,6 +78,10 @@ def build_am(modes, mix, asyncs_all):
         pass
     am["methods"] = methods
     am["async"] = [[p, n] for p, ns in methods.items() for n in ns] if asyncs_all else []
+    if not asyncs_all:
+        # two of the machine's generic callbacks declare the injected names as keyword-only parameters; every event is
+        # sent with a positional payload that no callback declares
+        am["kwonly_view"] = [["machine", n] for n in ("on_enter_state", "after_transition", "before_transition") if n in methods["machine"]][:2]
     if "on_jump" in methods["machine"] and not asyncs_all:
         # the machine's event-specific `on` action of `jump` is given with the decorator spelling
         #   @b.to(c)
@@ -153,7 +157,7 @@ def run(ctx, params):
                 ctx.check(False, "initial-state-not-active:" + tag)
             return
         ev = EVENTS[ctx.choose(len(EVENTS), "ev")]
-        out = outcome_of(lambda: sm.send(ev), sm)
+        out = outcome_of(lambda: sm.send(ev, 7), sm)
         acc = Acceptor(am, script.log, rtc=True, is_async=True)
         new = accept_or_mismatch(acc, None, ["__initial__", ev], out, "init:" + tag, script.log)
         ctx.check(sm.current_state.id == new, "wrong-state:init:" + tag, f"expected {new}, got {sm.current_state.id}")
@@ -168,7 +172,7 @@ def run(ctx, params):
         script.sm = sm
     cur = STATES[params["s0"]]
     ev = EVENTS[ctx.choose(len(EVENTS), "ev")]
-    out = outcome_of(lambda: sm.send(ev), sm)
+    out = outcome_of(lambda: sm.send(ev, 7), sm)
     acc = Acceptor(am, script.log, rtc=params["rtc"], is_async=is_async)
     new = accept_or_mismatch(acc, cur, [ev], out, tag, script.log)
     ctx.check(sm.current_state.id == new, "wrong-state:" + tag, f"expected {new}, got {sm.current_state.id}")
